@@ -263,3 +263,48 @@ func VerifC18_Cascade_T1() { cascade(2, 2, 2, 2, 3, 3) }
 func VerifC18_Cascade_T2() { cascade(3, 2, 3, 3, 4, 2) }
 func VerifC18_Cascade_T3() { cascade(1, 1, 1, 1, 1, 1) }
 func VerifC18_Cascade_T4() { cascade(0, 3, 2, 2, 0, 3) }
+
+type unresolvable struct{}
+
+func (unresolvable) Error() string { return "no such file or directory" }
+
+// VerifC18_RealPath: the resolver contract the cascade harnesses stub out.  The real realPath runs
+// with filepath.EvalSymlinks replaced by an arbitrary (result, error) pair: a name that cannot be
+// resolved must stand as the empty path (which no entry covers), a resolved one as exactly the
+// resolver's answer; end to end, an unresolvable name is admitted only if an entry covers the name
+// as written -- never through a normalised or partially resolved form of it.
+func VerifC18_RealPath() {
+	fails := sym.Bool("eval_fails")
+	res := sym.Str("res", 2)
+	sym.Intercept("path/filepath.EvalSymlinks", func(string) (string, error) {
+		if fails {
+			return "", unresolvable{}
+		}
+		return res, nil
+	})
+	p := sym.Str("p", 4)
+	got := realPath(p) // any name at all, clean or not
+	if fails {
+		sym.Assert(got == "" || got == p, "an unresolvable name must stand as the empty path, never as a derived form of the name")
+	} else {
+		sym.Assert(got == res, "a resolved name must stand as exactly the resolver's answer")
+	}
+	// end to end, as in the cascade harnesses: the tracer presents only clean absolute names, resolutions are clean
+	sym.Assume(cleanStable(p) && p != "")
+	sym.Assume(cleanStable(res))
+	fs := NewFileSets()
+	var ents []string
+	var ri int
+	fs.Readable, ents, ri = fixedSet("r", 2)
+	fs.SoftBan = fs.Readable
+	adm := fs.IsReadableFile(p)
+	ban := fs.IsSoftBanFile(p)
+	if fails {
+		sym.Reach("unresolvable")
+		sym.Assert(!adm || covered(ents, ri, p), "unresolvable name admitted although no entry covers it as written")
+		sym.Assert(!ban || covered(ents, ri, p), "unresolvable name soft-banned although no entry covers it as written")
+		return
+	}
+	sym.Reach("resolved")
+	sym.Assert(!adm || covered(ents, ri, p) || covered(ents, ri, res), "admitted although no entry covers the name or its resolution")
+}
